@@ -246,13 +246,42 @@ impl Ord for Number {
                     l.cmp(&(*r as u64))
                 }
             }
-            (_, _) => {
-                let l = OrderedFloat(self.as_f64().unwrap());
-                let r = OrderedFloat(other.as_f64().unwrap());
-                l.cmp(&r)
-            }
+            (Number::Int64(l), Number::Float64(r)) => cmp_i64_f64(*l, *r),
+            (Number::Float64(l), Number::Int64(r)) => cmp_i64_f64(*r, *l).reverse(),
+            (Number::UInt64(l), Number::Float64(r)) => cmp_u64_f64(*l, *r),
+            (Number::Float64(l), Number::UInt64(r)) => cmp_u64_f64(*r, *l).reverse(),
+            (Number::Float64(l), Number::Float64(r)) => OrderedFloat(*l).cmp(&OrderedFloat(*r)),
         }
     }
+}
+
+// Compare an integer with a float by their exact mathematical values,
+// converting the integer to `f64` would round values beyond 2^53.
+// NaN is greater than any other number.
+fn cmp_i64_f64(l: i64, r: f64) -> Ordering {
+    if r.is_nan() || r >= 9223372036854775808.0 {
+        return Ordering::Less;
+    }
+    if r < -9223372036854775808.0 {
+        return Ordering::Greater;
+    }
+    // `r` is in the range of i64, its integral part is converted exactly.
+    let r_int = r.trunc();
+    l.cmp(&(r_int as i64))
+        .then_with(|| OrderedFloat(0.0).cmp(&OrderedFloat(r - r_int)))
+}
+
+fn cmp_u64_f64(l: u64, r: f64) -> Ordering {
+    if r.is_nan() || r >= 18446744073709551616.0 {
+        return Ordering::Less;
+    }
+    if r < 0.0 {
+        return Ordering::Greater;
+    }
+    // `r` is in the range of u64, its integral part is converted exactly.
+    let r_int = r.trunc();
+    l.cmp(&(r_int as u64))
+        .then_with(|| OrderedFloat(0.0).cmp(&OrderedFloat(r - r_int)))
 }
 
 impl Display for Number {
